@@ -125,6 +125,8 @@ def _jobs(tier):
     out = []
     for s in RERENDER:
         out.append({'shape': s, 'mode': 'rerender', 'L': 4 if T else 3, 'P': 0})
+    # 70 (thorough: 140) calls of about 1000 cycles each on one recorder that is never cleared
+    out.append({'shape': 'regq1', 'mode': 'long', 'L': 140 if T else 70, 'P': 0})
     for s in SHAPES:
         if SHAPES[s].get('bare'):
             out.append({'shape': s, 'mode': 'split', 'L': 2, 'P': 0})
@@ -169,6 +171,8 @@ def cost(d):
     free = max(0, d['L'] - len(d['prefix']))
     if d['mode'] == 'rerender':
         return 6 * (A ** (d['L'] + 1)) ** 2
+    if d['mode'] == 'long':
+        return 5000
     return (A + (1 if d['mode'] == 'split' else 0)) ** free * (2 * d['L'] if d['mode'] == 'special' else 1)
 
 
@@ -453,11 +457,36 @@ def run_path(shape, path):
 
 # ---------------------------------------------------------------------------
 
+def _long_path(d):
+    A = len(alphabet(d['shape'])[1])
+    return [['s', i % A, 1000 + (i % 7)] for i in range(d['L'])]
+
+
+def _long(d):
+    """one recorder kept running for tens of thousands of cycles without clear(): still one sample per simulated cycle"""
+    core.reset_prepared()
+    path = _long_path(d)
+    c = run_path(d['shape'], path)
+    bad, wd = check_node(c, short_too=True)
+    R = {'evaluations': 1, 'distinct_nontrivial': 1, 'traces_validated_against_impl': 1, 'configs': 1, 'violations': [],
+         'samples': [{'shape': d['shape'], 'cycles': len(c.hist[c.bases[0]])}], 'capped': False, 'distinct_outcomes': 2, 'vacuous_ok': True}
+    seen = set()
+    for what, det in bad:
+        if what not in seen:
+            seen.add(what)
+            det = dict(det) if isinstance(det, dict) else {'detail': repr(det)[:300]}
+            det['cycles'] = len(c.hist[c.bases[0]])
+            R['violations'].append({'sig': 'C15:%s:%s' % (d['shape'], what), 'shard': d, 'trace': [], 'detail': det})
+    return R
+
+
 def run_shard(d):
     # forked workers share the parent's heap copy-on-write; keep the cyclic GC from touching (= copying) it
     gc.freeze()
     if d['mode'] == 'rerender':
         return _rerender(d)
+    if d['mode'] == 'long':
+        return _long(d)
     R = _walk(d, d['L'])
     if R['violations'] and not d.get('min_len'):
         # shorten the counterexamples: the same walk with smaller cycle bounds, shortest bound that shows each sig wins
@@ -639,6 +668,8 @@ def _walk(d, L):
 
 def replay(v):
     d = v['shard']
+    if d.get('mode') == 'long':
+        v = dict(v, trace=_long_path(d))
     try:
         c = run_path(d['shape'], v['trace'])
     except core.HarnessError:
